@@ -54,6 +54,68 @@ def make(rng, lens):
     return sc
 
 
+def make_violation(rng, lens):
+    """a valid stream with Pings anywhere (also inside an open fragmented message), then a frame that violates RFC 6455 (every class of
+       gen_core.VIOLATIONS that applies in the stream state), then a Ping and a text frame that must never be seen.  Segmentations put the
+       violating frame in the SAME read as the Pings before it, in a later read, or cut the stream anywhere."""
+    sc = Scenario([], prate=0, autopong=rng.random() < 0.8)
+    frames = []
+    for _ in range(rng.randint(0, 5)):
+        r = rng.random()
+        if r < 0.5:
+            frames.append(server_frame(9, gen_core.rand_bytes(rng, rng.choice(lens))))
+        elif r < 0.8:
+            it = gen_core.gen_item(rng, gen_core.SMALL_SIZES)
+            if it.frags and len(it.frags) > 1:
+                it.between = [[gen_core.Item('ping', gen_core.rand_bytes(rng, rng.choice(lens))) for _ in range(rng.choice([1, 2]))] for _ in it.frags[:-1]]
+            frames += gen_core.serialise_item(rng, it)
+        else:
+            frames.append(server_frame(10, b'pong'))
+    mid = rng.random() < 0.3
+    mid_text = mid and rng.random() < 0.5
+    if mid:
+        frames.append(server_frame(1 if mid_text else 2, b'open' , fin=0))
+        if rng.random() < 0.5:
+            frames.append(server_frame(0, b'', fin=0))
+    # Pings received completely just before the violating frame
+    for _ in range(rng.choice([0, 1, 1, 2, 3])):
+        frames.append(server_frame(9, gen_core.rand_bytes(rng, rng.choice(lens))))
+    cls = rng.choice([c for c in gen_core.VIOLATIONS if gen_core.applicable(c, mid, mid_text)])
+    bad = gen_core.gen_violation(rng, cls, mid)
+    after = server_frame(9, b'after-violation') + server_frame(1, b'LATERTEXT')
+    hs, prefix = sc.good_reply(), b''.join(frames)
+    mode = rng.choice(['same-read', 'same-read', 'tail-same-read', 'frames', 'random', 'bytes'])
+    if mode == 'bytes' and len(prefix) + len(bad) > 300:
+        mode = 'random'
+    if mode == 'same-read':
+        chunks = [hs + prefix + bad + after] if rng.random() < 0.5 else [hs, prefix + bad + after]
+    elif mode == 'tail-same-read':
+        k = len(b''.join(frames[:-rng.randint(1, 3)])) if frames else 0
+        head = hs + prefix[:k]
+        chunks = cut(head, random_cuts(rng, len(head), rng.choice([0, 1, 3]))) + [prefix[k:] + bad + (after if rng.random() < 0.5 else b'')]
+        if len(chunks[-1]) < len(prefix[k:] + bad + after):
+            chunks.append(after)
+    elif mode == 'frames':
+        chunks = [hs] + frames + [bad, after]
+    elif mode == 'bytes':
+        data = prefix + bad + after
+        chunks = [hs] + [data[i:i + 1] for i in range(len(data))]
+    else:
+        data = hs + prefix + bad + after
+        chunks = cut(data, random_cuts(rng, len(data), rng.choice([1, 2, 6])))
+    sc.env = reads(limit_chunks([c for c in chunks if c])) + [('wait', 1, ('eof',))]
+    r = rng.random()
+    if r < 0.3:
+        sc.reactions = gen_core.gen_reactions(rng, 12, density=0.3, allow_close=False, allow_bad=False)
+    elif r < 0.45:
+        sc.reactions = gen_core.gen_reactions(rng, 12, density=0.3, allow_close=True, allow_bad=False)      # closing state
+        # a close() before the connection is ready ends it before anything is received: keep the closes on the established connection
+        sc.reactions = {k: v for k, v in sc.reactions.items() if k >= 3 or not any(a[0] == 'close' for a in v)}
+    sc.sent_pings = pings_in_stream(prefix)
+    sc.vcls, sc.vmode = cls, mode
+    return sc
+
+
 def pings_in_stream(data):
     """payloads of the Ping frames of a (valid, unmasked) server frame stream, in order - an independent reading of the bytes"""
     import struct
@@ -71,9 +133,13 @@ def pings_in_stream(data):
     return out
 
 
-def judge(res, js, line, real, autopong, sent_pings=None):
+def judge(res, js, line, real, autopong, sent_pings=None, violation=None):
+    """violation: None for a valid server stream; otherwise a description of the violating frame that follows the valid part of the stream
+       (sent_pings = the Pings completely received before that frame)"""
     tk = toks(real)
     def fail(msg):
+        if violation:
+            msg += ' [stream: valid frames, then a protocol violation: %s]' % violation
         res.failures.append(dict(cls='pong', what=msg, input=line[-1500:], scenario=js, observed=[t[:60] for t in tk[-8:]]))
     # token placement (Lean: C14Tokens.tokens_well_placed): every call-result token directly follows an event, a token, or exactly
     # one write / socket close that itself directly follows an event or a token - so "followed by R:" classifies writes unambiguously
@@ -105,12 +171,43 @@ def judge(res, js, line, real, autopong, sent_pings=None):
                 expected.append((i, payload))
     # the stream is valid and nothing but socket writes can fail: an unwritable Pong is dropped silently, it never breaks the loop
     for t in tk:
+        if violation:
+            break       # the connection is failed by the violation: judged below
         if t.startswith('E:disconnected:') and t.split(':')[2] in ('error', 'forced') or t.startswith('E:disconnected:other'):
             return fail('the event stream was disturbed: %s in a run whose server stream is valid (a Pong that cannot be written must be dropped silently)' % t)
         if t.startswith('ESCAPED'):
             return fail('an exception escaped the iterator in a run whose server stream is valid')
     # the stream is valid: every Ping it contains must come out as a Ping event, in order (all of them unless the connection was cut
     # short by a write fault or by the application's own close / session close)
+    if violation:
+        if any(t.startswith('ESCAPED') for t in tk):
+            return fail('an exception escaped the iterator')
+        if not any(t.startswith('E:ready') for t in tk):
+            return      # the WebSocket connection was never established: no frame was received
+        perr = [i for i, t in enumerate(tk) if t.startswith('E:protocol_error')]
+        got = [p for _, p in all_pings(tk)]
+        n_events = sum(1 for t in tk if t.startswith('E:'))
+        hard_cut = any(a and a[0] in ('session_close', 'abandon') for k, acts in js.get('reactions', {}).items() if int(k) < n_events for a in acts)
+        # every Ping that was completely received before the violating frame is an event (the application's close() does not end the
+        # connection, and the scenario has no write faults); nothing that follows the violating frame is
+        if got != sent_pings and not hard_cut:
+            return fail('Pings completely received before the violating frame %s, Ping events %s' % ([p.hex()[:12] for p in sent_pings], [p.hex()[:12] for p in got]))
+        if perr and any(i > perr[0] for i, _ in all_pings(tk)):
+            return fail('a Ping event after the ProtocolError event')
+        if not autopong:
+            if lib_pongs:
+                fail('library wrote a Pong although automatic pongs are disabled')
+            return
+        if [p for _, p, _ in lib_pongs] != [p for _, p in expected]:
+            return fail('library Pongs %s do not match the Pings received before the violation (and before the client\'s Close) %s' % ([p.hex()[:16] for _, p, _ in lib_pongs], [p.hex()[:16] for _, p in expected]))
+        for (wi, p, _), (ei, q) in zip(lib_pongs, expected):
+            if not wi < ei:
+                return fail('Pong for a Ping written after the Ping event was handed to the application')
+            if any(tk[k].startswith('R:') for k in range(wi + 1, ei)):
+                return fail('application write between the Pong and its Ping event')
+            if perr and wi > perr[0]:
+                return fail('a Pong written after the error handling began (ProtocolError event / Close 1002)')
+        return
     if sent_pings is not None:
         got = [p for _, p in all_pings(tk)]
         # only calls that were really made count (the reaction at event index i runs iff at least i+1 events were yielded)
@@ -151,7 +248,9 @@ def explore(res, tier, seed, model_ok=True):
     rng = random.Random(seed)
     n = 300 if tier == 'quick' else 5000
     res.rule = ('Ping payload lengths 0..125 exhaustively (one stream each), then %d random streams with 1-12 frames (Pings anywhere incl. between fragments and several per read, Pongs, data, server Close followed by a Ping), '
-                'auto_pong on/off, application writes at random events, write failures; non-trivial = stream with >= 1 Ping; distinct by operation line') % n
+                'auto_pong on/off, application writes at random events, write failures; plus streams in which the Pings are followed by a frame of any violation class (same read / later read / any cut / bytewise; '
+                'also inside an open fragmented message and while closing): every Ping completely received before the violating frame is an event and is answered before the error handling; '
+                'non-trivial = stream with >= 1 Ping; distinct by operation line') % n
     scs, aps, sps = [], [], []
     for ln in range(126):
         sc = Scenario([], prate=0)
@@ -161,14 +260,21 @@ def explore(res, tier, seed, model_ok=True):
     for _ in range(n):
         sc = make(rng, [0, 0, 1, 2, 7, 125, rng.randint(0, 125)])
         scs.append(sc); aps.append(sc.autopong); sps.append(sc.sent_pings)
+    viol = [None] * len(scs)
+    # Pings followed - in the same read and in later reads - by a frame that is a protocol violation
+    for _ in range(150 if tier == 'quick' else 3000):
+        sc = make_violation(rng, [0, 0, 1, 2, 7, 125, rng.randint(0, 125)])
+        scs.append(sc); aps.append(sc.autopong); sps.append(sc.sent_pings); viol.append('%s, segmentation %s' % (sc.vcls, sc.vmode))
     pairs = coreutil.run_pairs(scs, model_ok)
-    for (js, line, real, model), ap, sp in zip(pairs, aps, sps):
+    for (js, line, real, model), ap, sp, vi in zip(pairs, aps, sps, viol):
         if isinstance(real, dict):
             res.crashes.append(real); continue
-        res.case(line, nontrivial='E:ping' in real)
+        res.case(line, nontrivial='E:ping' in real or bool(sp))
         res.count('autopong' if ap else 'no_autopong')
         res.count('pings', real.count('E:ping'))
-        judge(res, js, line, real, ap, sp)
+        if vi:
+            res.count('pings-then-violation:' + vi.split(', segmentation ')[1])
+        judge(res, js, line, real, ap, sp, vi)
     coreutil.check_corr(res, pairs)
     res.samples += [pairs[3][1][-200:], pairs[-1][1][-300:]]
 
